@@ -32,6 +32,10 @@ func pattern(n, pat int) []byte {
 			b[i] = 0
 		case 1:
 			b[i] = 0x7F
+		case 3:
+			// bytes with the high bit set, sysex delimiters among them (no sender
+			// should produce them, but building and parsing are plain byte work)
+			b[i] = []byte{0x00, 0xF7, 0xF0, 0x80, 0xFF, 0x7F, 0xF0, 0xF7}[i%8]
 		default:
 			b[i] = byte(i*5+1) & 0x7F
 		}
@@ -229,10 +233,10 @@ func roland(part, parts int) {
 	}
 	// payload lengths 1..512 x three content patterns (data-set); request sizes
 	for n := 1 + part; n <= 512; n += parts {
-		for pat := 0; pat < 3; pat++ {
+		for pat := 0; pat < 4; pat++ {
 			v := base(false)
 			v.SendingData = pattern(n, pat)
-			judge(v, n <= 8 || n == 128 || n == 512)
+			judge(v, (n <= 8 || n == 128 || n == 512) && pat < 3)
 		}
 	}
 	for f := 0; f < 3; f++ {
@@ -330,6 +334,33 @@ func mmcChecks(part, parts int) {
 						a[f] = x
 						one(mmc.GoTo{DeviceID: d, Hour: byte(a[0]), Minute: byte(a[1]), Second: byte(a[2]), Frame: byte(a[3]), SubFrame: byte(a[4])})
 					}
+				}
+			}
+		}
+		// several messages are built before the first one is looked at again
+		{
+			var built [][]byte
+			var vals []mmc.Message
+			for _, v := range []mmc.Message{{DeviceID: 1, Command: mmc.PlayCmd}, {DeviceID: 2, Command: mmc.StopCmd}, {DeviceID: 127, Command: mmc.Command(0x09)}} {
+				built = append(built, v.SysEx())
+				vals = append(vals, v)
+			}
+			var locs [][]byte
+			gs := []mmc.GoTo{{DeviceID: 1, Hour: 1, Minute: 2, Second: 3, Frame: 4, SubFrame: 5}, {DeviceID: 9, Hour: 9, Minute: 8, Second: 7, Frame: 6, SubFrame: 5}}
+			for _, g := range gs {
+				locs = append(locs, g.SysEx())
+			}
+			for i, b := range built {
+				ctx.Eval()
+				var back mmc.Message
+				if err := back.Parse(b); err != nil || back.DeviceID != vals[i].DeviceID || back.Command != vals[i].Command {
+					report("mmc:command:results-share-memory", vals[i], b, fmt.Sprintf("three commands were built one after the other; the bytes of number %d now parse as %+v (%v)", i+1, back, err))
+				}
+			}
+			for i, b := range locs {
+				var back mmc.GoTo
+				if err := back.Parse(b); err != nil || back != gs[i] {
+					report("mmc:locate:results-share-memory", gs[i], b, fmt.Sprintf("two locates were built one after the other; the bytes of number %d now parse as %+v (%v)", i+1, back, err))
 				}
 			}
 		}
